@@ -177,6 +177,31 @@ func keyF64(i int) float64 {
 	return float64(i-6) * 0.5
 }
 
+func f32FromBits(u uint32) float32 { return *(*float32)(unsafe.Pointer(&u)) }
+func f32Bits(f float32) uint32     { return *(*uint32)(unsafe.Pointer(&f)) }
+
+// complex keys whose parts differ only in the sign of a zero are equal
+func keyC64(i int) complex64 {
+	pz, nz := f32FromBits(0), f32FromBits(0x80000000)
+	switch i {
+	case 0:
+		return complex(pz, pz)
+	case 1:
+		return complex(nz, pz)
+	case 2:
+		return complex(pz, nz)
+	case 3:
+		return complex(nz, nz)
+	case 4:
+		return complex(float32(1), pz)
+	case 5:
+		return complex(float32(1), nz)
+	case 6:
+		return complex(pz, float32(2))
+	}
+	return complex(nz, float32(2))
+}
+
 func keyArr(i int) arr2 { return arr2{i, -i} }
 func keySt(i int) st    { return st{i % 4, "s" + itoa(i/4)} }
 
@@ -205,7 +230,10 @@ func keyAny(i int) any {
 		}
 		return uint8(n)
 	case 7:
-		return n%2 == 1
+		if n < 2 {
+			return n == 1
+		}
+		return keyC64(n % 8)
 	case 8:
 		switch n {
 		case 0:
@@ -265,6 +293,10 @@ func pkAny(k any) {
 	case float64:
 		ws(" aF")
 		wu(toBits(x))
+	case complex64:
+		ws(" aC")
+		wu(uint64(f32Bits(real(x))))
+		wu(uint64(f32Bits(imag(x))))
 	case arr2:
 		ws(" aA")
 		wi(x[0])
